@@ -558,6 +558,85 @@ pub fn gdiag_json(d: &GDiag) -> serde_json::Value {
     }
 }
 
+// ---------- the error chain a command prints (C02 command leg) ----------
+
+pub fn strip_ansi(s: &str) -> String {
+    let mut out = String::new();
+    let mut it = s.chars().peekable();
+    while let Some(c) = it.next() {
+        if c == '\u{1b}' && it.peek() == Some(&'[') {
+            it.next();
+            for d in it.by_ref() {
+                if d.is_ascii_alphabetic() {
+                    break;
+                }
+            }
+        } else {
+            out.push(c);
+        }
+    }
+    out
+}
+
+/// what a command's error chain says about a book-keeping error
+#[derive(Clone, Debug, PartialEq)]
+pub enum CmdErr {
+    /// `balance assertion off by DIFF, computed balance is COMPUTED` located at the `= X` of
+    /// this posting of this entry (NO_POSTING where the location is no such place)
+    Assert { entry: usize, posting: usize, computed: AmountObs, diff: AmountObs },
+    /// another book-keeping error (title kind) located in this entry
+    Other { title: u32, entry: usize },
+    /// no book-keeping error in the chain (a query error, a usage error, ...)
+    NoBookKeeping,
+}
+
+pub fn read_cmd_error(stderr: &str, r: &Rendered, comms: &[String]) -> CmdErr {
+    let text = strip_ansi(stderr);
+    let lines: Vec<&str> = text.lines().collect();
+    let src_lines: Vec<&str> = r.text.split('\n').collect();
+    let (ti, title, code) = match lines.iter().enumerate().find_map(|(i, l)| {
+        let at = l.find("error: ")?;
+        let t = &l[at..];
+        let c = title_code(t);
+        if c != 0 {
+            Some((i, t, c))
+        } else {
+            None
+        }
+    }) {
+        Some(x) => x,
+        None => return CmdErr::NoBookKeeping,
+    };
+    let (loc_line, loc_col) = match lines[ti + 1..].iter().find(|l| l.trim_start().starts_with("--> ")).and_then(|l| {
+        let loc = l.trim_start().trim_start_matches("--> ");
+        let mut it = loc.rsplitn(3, ':');
+        let c: usize = it.next()?.trim().parse().ok()?;
+        let n: usize = it.next()?.parse().ok()?;
+        Some((n, c))
+    }) {
+        Some(x) => x,
+        None => return CmdErr::Other { title: code, entry: NO_POSTING },
+    };
+    let (entry, _) = place_of_line(r, loc_line);
+    if code != 5 {
+        return CmdErr::Other { title: code, entry };
+    }
+    let a = "balance assertion off by ";
+    let b = ", computed balance is ";
+    let (diff, computed) = match (title.find(a), title.find(b)) {
+        (Some(i), Some(j)) if i + a.len() <= j => (parse_inline(&title[i + a.len()..j], comms), parse_inline(&title[j + b.len()..], comms)),
+        _ => (AmountObs::new(), AmountObs::new()),
+    };
+    let posting = if entry != NO_POSTING && loc_line >= 1 && loc_line <= src_lines.len() && loc_col >= 1 {
+        let off: usize = src_lines[..loc_line - 1].iter().map(|l| l.len() + 1).sum();
+        let at = off + byte_at_char(src_lines[loc_line - 1], loc_col - 1);
+        r.posting_span[entry].iter().position(|sp| sp.balance.as_ref().map_or(false, |b| b.start == at)).unwrap_or(NO_POSTING)
+    } else {
+        NO_POSTING
+    };
+    CmdErr::Assert { entry, posting, computed, diff }
+}
+
 pub fn diag_term(d: &Diag) -> String {
     use crate::ledger::amount_term;
     match d {
